@@ -110,6 +110,10 @@ package refopts
 //@   call 0 LastIndexByte as li
 //@   ensures li == -1 ==> len(result) == 0
 //@   ensures li >= 0 ==> same(result, symbol[:li]) && len(result) < len(symbol)
+//@   ensures len(result) <= len(symbol) && (len(symbol) > 0 ==> len(result) < len(symbol))
+//@   ensures same(result, symbol[:len(result)]) || len(result) == 0
+//@   ensures forall k int :: len(result) < k && k < len(symbol) ==> symbol[k] != 46
+//@   ensures len(result) > 0 ==> symbol[len(result)] == 46
 
 // Finish: with no reference option at all the top-level filter becomes All
 // (no ROOT given) or None (only ROOTs); an explicit filter is kept (C06).
@@ -202,3 +206,54 @@ package refopts
 //@   loop 0 step entry.Key != "name" && entry.Key != "include" && entry.Key != "exclude" && entry.Key != "includeregexp" && entry.Key != "excluderegexp" ==> same(rg.Name, prev(rg.Name)) && rg.filter == prev(rg.filter)
 
 //@ property C15: (*refGroup).augmentFromConfig
+
+// ---------------------------------------------------------------- ref_group_builder.go: the group tree (C07, C15)
+// getGroup terminates for every symbol ("however deeply nested and however
+// named"): the recursion is on the parent symbol, which is strictly shorter,
+// and the top-level group "" is always present. It returns the existing group
+// or a new one that is registered under exactly `symbol` and hangs below the
+// group of its parent symbol; no existing group is replaced.
+//@ func (*RefGroupBuilder).getGroup
+//@   requires has(rgb.groups, "")
+//@   requires forall s sizes.RefGroupSymbol :: has(rgb.groups, s) ==> rgb.groups[s] != nil
+//@   decreases len(symbol)
+//@   modifies map(rgb.groups), fieldmem(refGroup.subgroups)
+//@   call 0 parentName as pn
+//@   ensures result != nil && has(rgb.groups, symbol) && rgb.groups[symbol] == result
+//@   ensures forall s sizes.RefGroupSymbol :: old(has(rgb.groups, s)) ==> has(rgb.groups, s) && rgb.groups[s] == old(rgb.groups[s])
+//@   ensures forall s sizes.RefGroupSymbol :: has(rgb.groups, s) ==> rgb.groups[s] != nil
+//@   ensures old(has(rgb.groups, symbol)) ==> result == old(rgb.groups[symbol])
+//@   ensures !old(has(rgb.groups, symbol)) ==> fresh(result)
+//@   ensures !old(has(rgb.groups, symbol)) ==> same(result.Symbol, symbol)
+//@   ensures !old(has(rgb.groups, symbol)) ==> result.filter == nil
+//@   ensures !old(has(rgb.groups, symbol)) ==> len(result.subgroups) == 0
+//@   ensures !old(has(rgb.groups, symbol)) ==> pn_reached
+//@   ensures !old(has(rgb.groups, symbol)) ==> has(rgb.groups, pn)
+//@   ensures !old(has(rgb.groups, symbol)) ==> result.parent == rgb.groups[pn]
+
+// readRefgroupsFromGitconfig asks git for exactly the "refgroup" section and,
+// in git's order, for every entry whose key has a group symbol, reads that
+// group's own entries into the group registered under that symbol — once per
+// symbol: an entry of a group not seen before triggers exactly one
+// augmentFromConfig, on the group with that very symbol; entries without a
+// symbol and repeated symbols trigger none. A failure to read is returned.
+//@ func (*RefGroupBuilder).readRefgroupsFromGitconfig
+//@   requires has(rgb.groups, "")
+//@   requires forall s sizes.RefGroupSymbol :: has(rgb.groups, s) ==> rgb.groups[s] != nil
+//@   modifies map(rgb.groups), fieldmem(refGroup.subgroups), fieldmem(refGroup.filter), fieldmem(sizes.RefGroup.Name)
+//@   ghost nAug counts augmentFromConfig
+//@   call 0 GetConfig assert keyof(arg_0) == keyof("refgroup")
+//@   call 0 GetConfig as cfgErr
+//@   call 0 splitKey as sk
+//@   call 0 augmentFromConfig assert arg_0 != nil && arg_0 == rgb.groups[symbol] && len(symbol) > 0
+//@   loop 0 invariant has(rgb.groups, "")
+//@   loop 0 invariant forall s sizes.RefGroupSymbol :: has(rgb.groups, s) ==> rgb.groups[s] != nil
+//@   loop 0 step len(symbol) > 0 && !prev(has(seen, symbol) && seen[symbol]) ==> nAug == prev(nAug) + 1 && has(seen, symbol) && seen[symbol]
+//@   loop 0 step len(symbol) == 0 || prev(has(seen, symbol) && seen[symbol]) ==> nAug == prev(nAug)
+//@   loop 0 step forall s sizes.RefGroupSymbol :: prev(has(seen, s) && seen[s]) ==> has(seen, s) && seen[s]
+//@   ensures configger == nil ==> result == nil && unchanged_all()
+//@   ensures has(rgb.groups, "")
+//@   ensures forall s sizes.RefGroupSymbol :: has(rgb.groups, s) ==> rgb.groups[s] != nil
+
+//@ property C15: (*RefGroupBuilder).readRefgroupsFromGitconfig (*RefGroupBuilder).getGroup
+//@ property C07: (*RefGroupBuilder).getGroup
